@@ -88,6 +88,8 @@ class NetSim:
                 continue
             if k == "user" and typ == 193:
                 continue
+            if k.startswith("type") and typ != int(k[4:]):
+                continue
             if k.startswith("frag") and not (typ in (148, 149, 150) and len(d) >= 8 and (d[7] == int(k[4:]) or (typ == 150 and int(k[4:]) == 1))):
                 continue
             return r.get("fate", "P")
